@@ -38,6 +38,14 @@ CHECKS["C02"] = dict(
     note="Trusted: vsched semantics; the in-process link as a settled polling transport; set-up (handshake) runs on the default schedule, deviations are spent after it. Scope: <=3 emitters, bound 4/2 (quick) and 6/4 (thorough). WebSocket/upgrade wire not covered here (see C07).",
     design="3/C02")
 
+CHECKS["C12"] = dict(
+    engine="vsched",
+    category="model_checking",
+    technique="bounded exhaustive enumeration of middleware chains executed on the real server under the controlled scheduler (virtual time), plus deviation-bounded exploration of concurrent connects",
+    text="Every namespace-middleware chain of length <= 3 over {accept, join+accept, reject with error / string / struct, join+reject} plus chains of 4-5 with one rejection at each position, on '/' and '/custom', is run against the real sio.Server through a harness-implemented Engine.IO socket; the oracle is the statement itself: invocation order is a prefix of registration order ending at the first rejection, exactly one CONNECT or CONNECT_ERROR carrying the rejection, connection handlers only for admitted sockets, and no trace of a rejected socket in the namespace list, the adapter's raw room indexes or the connection. 2-3 clients connecting at once with a middleware blocked on a gate are explored to the deviation bound. Per-socket event middlewares: chains of <= 2 x six handler signatures (no args, string, int, string+int, with ack) x accept/reject.",
+    note="Trusted: vsched semantics; rig R1 (harness speaks Socket.IO frames by hand). Scope: chains <= 5, <= 3 concurrent clients, bound 2 (quick) / 3 (thorough).",
+    design="3/C12")
+
 NOT_APPLICABLE = {
 }
 
